@@ -116,6 +116,8 @@ impl Scenario {
 
 #[derive(Clone, Debug, PartialEq, Eq)]
 pub struct RecObs {
+    /// 0 answer section, 1 authority section
+    pub sec: u8,
     pub owner: Labels,
     pub rtype: u16,
     pub class: u16,
@@ -220,15 +222,26 @@ pub fn execute(sc: &Scenario, rt: &tokio::runtime::Runtime) -> Vec<(u32, Obs)> {
                     Ok(Some(Ok(resp))) => Obs::Answers(
                         resp.answers
                             .iter()
-                            .map(|r| RecObs {
+                            .map(|r| (0u8, r))
+                            .chain(resp.authorities.iter().map(|r| (1u8, r)))
+                            .map(|(sec, r)| RecObs {
+                                sec,
                                 owner: labels_of(&r.name),
                                 rtype: u16::from(r.record_type()),
                                 class: u16::from(r.dns_class),
                                 ttl: r.ttl,
                                 proof: proof_u8(r.proof),
                                 rdata: {
-                                    use hickory_proto::serialize::binary::BinEncodable;
-                                    r.data.to_bytes().unwrap_or_default()
+                                    // uncompressed, case kept (a stand-alone `to_bytes` would compress the
+                                    // second name of an SOA against the first)
+                                    use hickory_proto::serialize::binary::{BinEncodable, BinEncoder, NameEncoding};
+                                    let mut buf = vec![];
+                                    let ok = {
+                                        let mut e = BinEncoder::new(&mut buf);
+                                        e.name_encoding = NameEncoding::Uncompressed;
+                                        r.data.emit(&mut e).is_ok()
+                                    };
+                                    if ok { buf } else { vec![] }
                                 },
                             })
                             .collect(),
@@ -248,8 +261,10 @@ fn content_key(table: &Table, k: &(String, u16)) -> u64 {
     let mut items: Vec<Vec<u8>> = p
         .answers
         .iter()
-        .map(|r| {
-            let mut v = vec![];
+        .map(|r| (0u8, r))
+        .chain(p.authorities.iter().map(|r| (1u8, r)))
+        .map(|(sec, r)| {
+            let mut v = vec![sec];
             vref::wire::emit_name(&vref::wire::lower(&r.owner), &mut v);
             v.extend_from_slice(&r.rtype.to_be_bytes());
             v.extend_from_slice(&r.class.to_be_bytes());
@@ -259,6 +274,34 @@ fn content_key(table: &Table, k: &(String, u16)) -> u64 {
         .collect();
     items.sort();
     fnv64(&items.concat())
+}
+
+/// Content of ONE RRset as served: section, owner, class, type, the members' RDATA and the RDATA of
+/// the RRSIGs of that section that cover it (no TTLs) - what a verdict cache may key on.
+fn group_content(p: &Option<refpred::Parsed>, sec: u8, owner: &Labels, class: u16, rtype: u16) -> u64 {
+    let Some(p) = p else { return 0 };
+    let rrs = if sec == 0 { &p.answers } else { &p.authorities };
+    let lo = vref::wire::lower(owner);
+    let mut items: Vec<Vec<u8>> = vec![];
+    for r in rrs.iter().filter(|r| vref::wire::lower(&r.owner) == lo) {
+        let is_member = r.rtype == rtype && r.class == class;
+        let is_sig = r.rtype == vref::sigref::T_RRSIG && r.rdata.len() >= 2 && u16::from_be_bytes([r.rdata[0], r.rdata[1]]) == rtype;
+        if is_member || is_sig {
+            let mut v = vec![is_sig as u8];
+            v.extend_from_slice(&r.class.to_be_bytes());
+            v.extend_from_slice(&r.rdata);
+            items.push(v);
+        }
+    }
+    items.sort();
+    let mut head = vec![sec];
+    vref::wire::emit_name(&lo, &mut head);
+    head.extend_from_slice(&rtype.to_be_bytes());
+    for i in &items {
+        head.extend_from_slice(&(i.len() as u32).to_be_bytes());
+        head.extend_from_slice(i);
+    }
+    fnv64(&head)
 }
 
 pub struct Judged {
@@ -279,6 +322,8 @@ pub fn judge_with_cold(sc: &Scenario, obs: &[(u32, Obs)], cold: &[Option<Obs>]) 
     // which (answer content) / (dnskey responses content) were returned Secure earlier in this history
     // (answer content, world) of earlier validate steps that returned a Secure record
     let mut secure_answer_contents: Vec<(u64, usize)> = vec![];
+    // (content of one RRset, world) of RRsets returned Secure earlier
+    let mut secure_group_contents: Vec<(u64, usize)> = vec![];
     let mut secure_key_contents: Vec<u64> = vec![];
     let mut vi = 0;
     for st in &sc.steps {
@@ -289,7 +334,7 @@ pub fn judge_with_cold(sc: &Scenario, obs: &[(u32, Obs)], cold: &[Option<Obs>]) 
             Some(Some(_)) => Some(vec![]),
             _ => None,
         };
-        let cold_secure = |r: &RecObs| cold_recs.as_ref().map(|c| c.iter().any(|x| x.proof == 3 && x.owner == r.owner && x.rtype == r.rtype && x.class == r.class && x.rdata == r.rdata));
+        let cold_secure = |r: &RecObs| cold_recs.as_ref().map(|c| c.iter().any(|x| x.proof == 3 && x.sec == r.sec && x.owner == r.owner && x.rtype == r.rtype && x.class == r.class && x.rdata == r.rdata));
         if cold_recs.is_some() {
             j.outcomes.push("differential:warm-step-compared-with-fresh-handle".into());
         }
@@ -304,6 +349,8 @@ pub fn judge_with_cold(sc: &Scenario, obs: &[(u32, Obs)], cold: &[Option<Obs>]) 
             }
         }
         let a_content = content_key(table, &sc.query);
+        let parsed = table.get(&sc.query).and_then(|b| refpred::parse(b));
+        let mut secure_groups_now: Vec<u64> = vec![];
         let k_content = {
             let mut h = 0u64;
             for (k, _) in table.iter().filter(|(k, _)| k.1 == vref::sigref::T_DNSKEY) {
@@ -331,7 +378,7 @@ pub fn judge_with_cold(sc: &Scenario, obs: &[(u32, Obs)], cold: &[Option<Obs>]) 
                     if r.proof != 3 {
                         // completeness is not C06's subject (only-if oracle); counted so that the
                         // report can say how often a fully valid (RRSIG, key) pair was not honoured
-                        if verdicts.iter().any(|v| v.allowed && v.owner == r.owner && v.class == r.class && v.rtype == r.rtype) {
+                        if verdicts.iter().any(|v| v.allowed && v.sec == r.sec && v.owner == r.owner && v.class == r.class && v.rtype == r.rtype) {
                             j.outcomes.push("obs:valid-rrsig-and-key-present-but-record-not-secure(not-judged)".into());
                         }
                         if cold_secure(r) == Some(true) {
@@ -344,7 +391,7 @@ pub fn judge_with_cold(sc: &Scenario, obs: &[(u32, Obs)], cold: &[Option<Obs>]) 
                     // per record: the RRset (same owner, CLASS and type) this very record is a
                     // member of; a record of another class, or with RDATA the upstream never
                     // served, belongs to no RRset the signature could speak for
-                    let pick = |vs: &[GroupVerdict]| vs.iter().find(|v| v.owner == r.owner && v.class == r.class && v.rtype == r.rtype && v.members.iter().any(|m| m.eq_ignore_ascii_case(&r.rdata))).cloned();
+                    let pick = |vs: &[GroupVerdict]| vs.iter().find(|v| v.sec == r.sec && v.owner == r.owner && v.class == r.class && v.rtype == r.rtype && v.members.iter().any(|m| m.eq_ignore_ascii_case(&r.rdata))).cloned();
                     let mut v = pick(&verdicts);
                     let mut rests_on_earlier_keys = false;
                     // A cached verdict speaks for the keys it was established with: when the very same
@@ -353,7 +400,8 @@ pub fn judge_with_cold(sc: &Scenario, obs: &[(u32, Obs)], cold: &[Option<Obs>]) 
                     // THIS validate (windows of both RRSIGs, remaining lifetime). The DNSKEY response
                     // having changed in between does not make the cached verdict wrong.
                     if !v.as_ref().is_some_and(|v| v.allowed) {
-                        for (_, w) in secure_answer_contents.iter().filter(|(c, w)| *c == a_content && *w != *world) {
+                        let g_content = group_content(&parsed, r.sec, &r.owner, r.class, r.rtype);
+                        for (_, w) in secure_group_contents.iter().filter(|(c, w)| *c == g_content && *w != *world) {
                             let earlier = refpred::evaluate(&sc.worlds[*w], &sc.anchors, &sc.query, *now).unwrap_or_default();
                             if let Some(e) = pick(&earlier).filter(|e| e.allowed) {
                                 j.outcomes.push("obs:cached-verdict-rests-on-keys-presented-earlier(dnskey-response-changed-since)".into());
@@ -364,7 +412,9 @@ pub fn judge_with_cold(sc: &Scenario, obs: &[(u32, Obs)], cold: &[Option<Obs>]) 
                         }
                     }
                     let v = v.as_ref();
-                    let scene = if secure_answer_contents.iter().any(|(c, _)| *c == a_content) {
+                    let g_content = group_content(&parsed, r.sec, &r.owner, r.class, r.rtype);
+                    secure_groups_now.push(g_content);
+                    let scene = if secure_answer_contents.iter().any(|(c, _)| *c == a_content) || secure_group_contents.iter().any(|(c, _)| *c == g_content) {
                         "cached"
                     } else if keys_seen_before {
                         "cached-keys"
@@ -425,6 +475,9 @@ pub fn judge_with_cold(sc: &Scenario, obs: &[(u32, Obs)], cold: &[Option<Obs>]) 
                 }
                 if any_secure {
                     secure_answer_contents.push((a_content, *world));
+                    for g in secure_groups_now {
+                        secure_group_contents.push((g, *world));
+                    }
                 }
                 classes.sort();
                 classes.dedup();
